@@ -84,7 +84,8 @@ fn valid_xz(rng: &mut StdRng, extreme: bool) -> Vec<u8> {
         let ext: [u64; 7] = [0, 1, 1 << 31, u32::MAX as u64, 1 << 32, (1 << 62) + 5, (1u64 << 63) - 1];
         let v = ext[rng.gen_range(0..ext.len())];
         let nb = f.blocks.len();
-        match rng.gen_range(0..9) {
+        match rng.gen_range(0..10) {
+            9 if nb > 0 => f.blocks[0].props_size_decl = Some(v),
             0 => f.backward = Some(v as u32),
             1 => f.backward = Some(u32::MAX),
             2 => f.idx_count = Some(v),
@@ -378,7 +379,10 @@ pub fn case_json(c: &Case, seed: u64, idx: u64) -> Value {
 pub const A0: usize = 9_000_000;
 pub const K: usize = 8;
 
-pub fn run(prop: &str, seed: u64, from: u64, count: u64, trace_path: Option<&str>, rep: &mut Report) {
+pub fn run(prop: &str, seed: u64, from: u64, count: u64, trace_path: Option<&str>, journal: Option<&str>, rep: &mut Report) {
+    // journal: the index of the case being decoded, rewritten before every case - if the code under test takes
+    // the whole process down (allocation failure aborts, stack overflow), the orchestrator still knows which case it was
+    let jfile = journal.and_then(|p| std::fs::OpenOptions::new().create(true).write(true).truncate(true).open(p).ok());
     let progress = Arc::new(AtomicU64::new(from));
     let started = Arc::new(AtomicU64::new(now_ms()));
     let done = Arc::new(AtomicUsize::new(0));
@@ -387,6 +391,10 @@ pub fn run(prop: &str, seed: u64, from: u64, count: u64, trace_path: Option<&str
     let worker = std::thread::Builder::new().stack_size(64 << 20).spawn(move || {
         for idx in from..from + count {
             let c = gen_case(seed, idx);
+            if let Some(f) = &jfile {
+                use std::os::unix::fs::FileExt;
+                let _ = f.write_at(&idx.to_le_bytes(), 0);
+            }
             p2.store(idx, Ordering::SeqCst);
             s2.store(now_ms(), Ordering::SeqCst);
             let r = run_case(&c);
@@ -459,6 +467,6 @@ fn now_ms() -> u64 {
 pub fn replay_value(v: &Value, prop: &str, rep: &mut Report) {
     let seed = v["seed"].as_u64().unwrap_or(1);
     let idx = v["index"].as_u64().unwrap_or(0);
-    run(prop, seed, idx, 1, None, rep);
+    run(prop, seed, idx, 1, None, None, rep);
     let _ = unhex("");
 }
